@@ -868,6 +868,22 @@ fn tcptype_from(s: &str) -> Option<TcpType> {
     }
 }
 
+fn typ_name(t: IceCandidateType) -> &'static str {
+    match t {
+        IceCandidateType::Host => "host",
+        IceCandidateType::ServerReflexive => "srflx",
+        IceCandidateType::PeerReflexive => "prflx",
+        IceCandidateType::Relay => "relay",
+    }
+}
+fn tcptype_name(t: TcpType) -> &'static str {
+    match t {
+        TcpType::Active => "active",
+        TcpType::Passive => "passive",
+        TcpType::So => "so",
+    }
+}
+
 fn cand_from_json(sc: &Value) -> Option<IceCandidate> {
     Some(IceCandidate {
         foundation: sc["foundation"].as_str()?.to_string(),
@@ -997,6 +1013,142 @@ fn run_d(sc: &Value) -> (Verdict, bool) {
             )
         }
     }
+}
+
+/// Part d, foreign lines: a candidate line as a REMOTE peer may legally write it (RFC 8839 5.1 /
+/// RFC 6544 4.5: the transport token is case-insensitive - "UDP" / "TCP" are the spellings the RFCs
+/// themselves use -, extension pairs come in any order, unknown extensions are to be ignored) is
+/// printed by the harness, parsed by rustrtc and must carry the tuple it was printed from; printing
+/// and parsing it again must not change that tuple (line -> struct -> line -> struct).
+fn run_d_foreign(sc: &Value) -> (Verdict, bool) {
+    let Some(c) = cand_from_json(sc) else {
+        return (Verdict::Inconclusive("bad scenario: candidate".into()), false);
+    };
+    let spelling = sc["spelling"].as_str().unwrap_or("udp");
+    let mut line = format!(
+        "{}{} {} {} {} {} {} typ {}",
+        if sc["prefix"].as_bool().unwrap_or(false) { "candidate:" } else { "" },
+        c.foundation, c.component, spelling, c.priority, c.address.ip(), c.address.port(), typ_name(c.typ)
+    );
+    let mut ext: Vec<String> = vec![];
+    if let Some(t) = c.tcp_type {
+        ext.push(format!("tcptype {}", tcptype_name(t)));
+    }
+    if let (Some(r), true) = (c.related_address, c.typ != IceCandidateType::Host) {
+        ext.push(format!("raddr {} rport {}", r.ip(), r.port()));
+    }
+    for e in sc["extra_ext"].as_array().cloned().unwrap_or_default() {
+        if let Some(e) = e.as_str() {
+            ext.push(e.to_string());
+        }
+    }
+    // the order of the extension pairs is given by the scenario (a rotation)
+    if !ext.is_empty() {
+        let k = sc["ext_rot"].as_u64().unwrap_or(0) as usize % ext.len();
+        ext.rotate_left(k);
+    }
+    for e in &ext {
+        line.push(' ');
+        line.push_str(e);
+    }
+    let r = std::panic::catch_unwind(|| {
+        let first = IceCandidate::from_sdp(&line);
+        let second = first.as_ref().ok().map(|f| IceCandidate::from_sdp(&f.to_sdp()));
+        (first, second)
+    });
+    let (first, second) = match r {
+        Err(_) => {
+            let p = take_panics();
+            let loc = p.last().map(|r| norm_location(&r.location)).unwrap_or_default();
+            return (Verdict::violated(format!("candidate.panic={loc}"), "from_sdp/to_sdp panicked on a legal foreign line", json!({"line": line})), true);
+        }
+        Ok(x) => x,
+    };
+    let differs = |got: &IceCandidate| -> Option<&'static str> {
+        if got.foundation != c.foundation {
+            Some("foundation")
+        } else if got.component != c.component {
+            Some("component")
+        } else if !got.transport.eq_ignore_ascii_case(&c.transport) {
+            Some("transport")
+        } else if got.priority != c.priority {
+            Some("priority")
+        } else if got.address != c.address {
+            Some("address")
+        } else if got.typ != c.typ {
+            Some("typ")
+        } else if c.transport.eq_ignore_ascii_case("tcp") && got.tcp_type.map(tcptype_name) != c.tcp_type.map(tcptype_name) {
+            Some("tcptype")
+        } else if c.typ != IceCandidateType::Host && got.related_address != c.related_address {
+            Some("related")
+        } else {
+            None
+        }
+    };
+    let shape = format!("transport_spelling={spelling}.tcptype={}", c.tcp_type.map(tcptype_name).unwrap_or("none"));
+    match first {
+        Err(e) => (
+            Verdict::violated(
+                format!("candidate.foreign_line.parse_error.transport_spelling={spelling}"),
+                "from_sdp rejects a legal candidate line of a remote peer",
+                json!({"line": line, "err": e.to_string()}),
+            ),
+            true,
+        ),
+        Ok(f) => {
+            if let Some(field) = differs(&f) {
+                return (
+                    Verdict::violated(
+                        format!("candidate.foreign_line.field={field}"),
+                        "a legal candidate line of a remote peer parses to another tuple than it was printed from",
+                        json!({"line": line, "reprinted": f.to_sdp(), "shape": shape}),
+                    ),
+                    true,
+                );
+            }
+            match second {
+                Some(Ok(g)) => match differs(&g) {
+                    None => (Verdict::Held, true),
+                    Some(field) => (
+                        Verdict::violated(
+                            format!("candidate.foreign_line.second_trip.field={field}"),
+                            "line -> struct -> line -> struct changes the candidate tuple",
+                            json!({"line": line, "reprinted": f.to_sdp(), "shape": shape}),
+                        ),
+                        true,
+                    ),
+                },
+                _ => (
+                    Verdict::violated(
+                        "candidate.foreign_line.second_trip.parse_error".to_string(),
+                        "from_sdp rejects the line to_sdp printed for a parsed foreign candidate",
+                        json!({"line": line, "reprinted": f.to_sdp()}),
+                    ),
+                    true,
+                ),
+            }
+        }
+    }
+}
+
+fn gen_d_foreign(rng: &mut Rng, i: u64) -> Value {
+    let mut sc = gen_d(rng);
+    let tcp = i % 2 == 0;
+    let spelling = if tcp { *rng.pick(&["tcp", "TCP", "Tcp"]) } else { *rng.pick(&["udp", "UDP", "Udp"]) };
+    sc["transport"] = json!(if tcp { "tcp" } else { "udp" });
+    sc["tcptype"] = json!(if tcp { *rng.pick(&["active", "passive", "so", "passive"]) } else { "" });
+    sc["spelling"] = json!(spelling);
+    sc["part"] = json!("d_foreign");
+    let pool = ["generation 0", "ufrag a1B2", "network-id 1", "network-cost 10", "x-ext 7"];
+    let n = rng.below(4) as usize;
+    let extra: Vec<&str> = (0..n).map(|_| *rng.pick(&pool)).collect();
+    sc["extra_ext"] = json!(extra);
+    sc["ext_rot"] = json!(rng.below(6));
+    // foundations of foreign lines: the ice-char alphabet only
+    let flen = 1 + rng.usize_below(32);
+    let foundation: String = (0..flen).map(|_| *rng.pick(&['0', '1', '9', 'a', 'f', 'Z', 'q', '+', '/'])).collect();
+    sc["foundation"] = json!(foundation);
+    sc
 }
 
 // ------------------------------------------------------------------------------------------------
@@ -1986,7 +2138,9 @@ fn gen_c_scenarios(rng: &mut Rng, tier: Tier) -> Vec<Value> {
             "part": "c", "transport": if tcp { "tcp" } else { "udp" },
             "user": gen_cred(rng, if i % 3 == 0 { 40 } else { 9 }), "pass": gen_cred(rng, 30), "realm": realm,
             "challenges": ch, "wait_refresh": false,
-            "dead_peers": if i % 3 == 2 { 3 } else { rng.range(0, 3) }, "wrap_channels": i % 3 == 2, "payload_lens": lens,
+            "dead_peers": if i % 3 == 2 || tcp { 3 } else { rng.range(0, 3) }, "wrap_channels": i % 3 == 2 && !tcp,
+            "first_channel": if tcp { Some([0x4000u64, 0x4ffe, 0x5000, 0x5fff, 0x6abc, 0x7000, 0x7ffd][((i / 5) * 2 + 2) as usize % 7]) } else { None },
+            "payload_lens": lens,
             "indication_peers": ["127.0.0.9:4444", "[2001:db8::c16]:5", "[::1]:65535", "0.0.0.1:1"],
         }));
     }
@@ -2119,12 +2273,25 @@ async fn turn_live(sc: Value) -> COut {
         if sc["wrap_channels"].as_bool().unwrap_or(false) {
             let n = t1.verif_turn_set_next_channel(0x7ffe).await;
             out.count(format!("c.hook_next_channel_clients={n}"));
+        } else if let Some(first) = sc["first_channel"].as_u64() {
+            // any part of the channel range 0x4000..=0x7FFF (RFC 5766 § 11) may be in use
+            let n = t1.verif_turn_set_next_channel(first as u16).await;
+            out.count(format!("c.hook_next_channel_clients={n}"));
+            out.seen.push(("c.first_channel".into(), format!("{first:#06x}/{}", if tcp { "tcp" } else { "udp" })));
         }
         for _ in 0..sc["dead_peers"].as_u64().unwrap_or(0) {
             if let Ok(sk) = UdpSocket::bind("127.0.0.1:0").await {
                 if let Ok(a) = sk.local_addr() {
                     known_peers.insert(a);
-                    t1.add_remote_candidate(IceCandidate::host(a, 1));
+                    let mut c = IceCandidate::host(a, 1);
+                    if tcp {
+                        // rustrtc advertises a relay obtained over TURN/TCP with transport "tcp" and
+                        // pairs it only with tcp candidates: such a remote candidate makes it send
+                        // CreatePermission / ChannelBind / checks for the peer through the TCP stream
+                        c.transport = "tcp".into();
+                        c.tcp_type = Some(TcpType::Passive);
+                    }
+                    t1.add_remote_candidate(c);
                     dead_socks.push((sk, a));
                 }
             }
@@ -2155,6 +2322,58 @@ async fn turn_live(sc: Value) -> COut {
         }
     } else {
         out.inconclusive = Some(format!("no relay candidate gathered (gather {g1:?}/{g2:?}, relay {})", relay.is_some()));
+    }
+
+    // ---- TURN/TCP: application payloads through the production TURN send wrapper (hook: ICE never
+    //      selects this relay), towards the peers the checks bound channels for and towards others
+    if tcp && !connected && out.inconclusive.is_none() {
+        // let the checks towards the dead peers bind their channels
+        tokio::time::sleep(Duration::from_millis(600)).await;
+        let socks = t1.verif_turn_sockets();
+        out.count(format!("c.tcp_turn_wrappers={}", socks.len()));
+        // channels for all dead peers but the last (that one is reached by Send indications)
+        let n_dead = dead_socks.len();
+        for (_, a) in dead_socks.iter().take(n_dead.saturating_sub(1)) {
+            let ch = t1.verif_turn_bind_channel(*a).await;
+            for c in ch {
+                out.seen.push(("c.tcp_channels_bound".into(), format!("{:#06x}", c & 0xf000)));
+            }
+        }
+        tokio::time::sleep(Duration::from_millis(200)).await;
+        if let Some(sk) = socks.first() {
+            let mut seq = 0u32;
+            let mut rng = Rng::new(hash_value(&sc));
+            let mut targets: Vec<SocketAddr> = dead_socks.iter().map(|d| d.1).collect();
+            for a in sc["indication_peers"].as_array().cloned().unwrap_or_default() {
+                if let Some(a) = parse_addr(&a) {
+                    known_peers.insert(a);
+                    targets.push(a);
+                }
+            }
+            for l in sc["payload_lens"].as_array().cloned().unwrap_or_default() {
+                let l = (l.as_u64().unwrap_or(8) as usize).max(8);
+                for t in &targets {
+                    seq += 1;
+                    let mut p = TAG.to_vec();
+                    p.extend_from_slice(&seq.to_be_bytes());
+                    p.extend_from_slice(&rng.bytes(l - 8));
+                    payloads.insert(seq, (p.clone(), *t));
+                    if sk.send_to(&p, *t).await.is_err() {
+                        out.count("c.send_to_err");
+                    } else {
+                        out.count("c.tcp_app_payloads_sent");
+                    }
+                }
+            }
+            // a STUN unit behind the payloads: on a stream whose framing slipped it is no longer found
+            for _ in 0..40 {
+                let n = rec.units.lock().iter().filter(|u| u.c2s).count();
+                tokio::time::sleep(Duration::from_millis(50)).await;
+                if rec.units.lock().iter().filter(|u| u.c2s).count() == n {
+                    break;
+                }
+            }
+        }
     }
 
     // ---- application payloads through the selected TURN socket
@@ -2418,6 +2637,13 @@ fn record_b(report: &mut Report, sc: &Value) {
 }
 
 fn record_d(report: &mut Report, sc: &Value) {
+    if sc["part"] == "d_foreign" {
+        let (v, nt) = run_d_foreign(sc);
+        report.count("d.foreign_lines", 1);
+        report.seen("d.foreign_shape", format!("{}/{}/ext{}", sc["spelling"].as_str().unwrap_or(""), sc["tcptype"].as_str().unwrap_or(""), sc["extra_ext"].as_array().map(|a| a.len()).unwrap_or(0)));
+        report.record(sc, if nt { Some(hash_value(sc)) } else { None }, v);
+        return;
+    }
     let (v, nt) = run_d(sc);
     report.count("d.candidates", 1);
     report.seen(
@@ -2456,7 +2682,7 @@ pub fn run(args: &Args) -> i32 {
         match sc["part"].as_str().unwrap_or("") {
             "a" => record_a(&mut report, &sc),
             "b" => record_b(&mut report, &sc),
-            "d" => record_d(&mut report, &sc),
+            "d" | "d_foreign" => record_d(&mut report, &sc),
             "e" => record_e(&mut report, &sc),
             "c" => {
                 let rt = build_runtime(4);
@@ -2574,6 +2800,10 @@ pub fn run(args: &Args) -> i32 {
         }
         for _ in 0..args.tier.pick(4_000, 300_000) {
             let sc = gen_d(&mut r);
+            record_d(&mut report, &sc);
+        }
+        for i in 0..args.tier.pick(2_000, 100_000) {
+            let sc = gen_d_foreign(&mut r, i);
             record_d(&mut report, &sc);
         }
     }
